@@ -175,7 +175,7 @@ def install(ctx):
 
 def gen_case(rng, tier, ctx, i):
     if tier == "thorough" and i == 1 and ctx.seed % 1000 == 0:
-        return {"big": 7000, "cfg": False}            # nothing in the statement bounds the size of the proposition
+        return {"big": 9000, "cfg": False}            # nothing in the statement bounds the size of the proposition
     if rng.random() < 0.2:
         from . import polygen
         p = polygen.gen_poly(rng, allow_int16=False, narrow=False)
